@@ -4,7 +4,7 @@
    correspondence runs of harness/cmd/c16. *)
 From Coq Require Import List Arith Bool.
 Import ListNotations.
-From GU Require Import C16.Model C16.ProofsA C16.Proofs.
+From GU Require Import C16.Model C16.ProofsA C16.ProofsS C16.Proofs.
 
 (* Both cache kinds (p_kind), any number of clients and of stored versions (ops), EVERY schedule at backend micro-step
    granularity, with any fault (error / short write / crash / crash after a partial write) at any step of any client and
@@ -19,6 +19,36 @@ Theorem fetch_installs_stored_version : forall (P : params) (ops : list opk) (sc
   exists v, c_dest L = DInst v /\ In v (stored (s_cl st)).
 Proof. exact fetch_installs_stored_version_l. Qed.
 Print Assumptions fetch_installs_stored_version.
+(* crash_then_fetch is the instance of this theorem in which the schedule gives some Store client the fault FCrash /
+   FCrashShort at any of its steps (then possibly a CleanEntry client) and then runs a Fetch client: the Fetch either does not
+   report success or has installed a complete version whose Store had begun (the interrupted one or an earlier one). *)
+
+(* The mechanism behind the mutable cache ("transfer and unpack under the entry lock"), for the repaired code and a sound
+   lock (no BreakLock label): under EVERY schedule with any faults and crashes, two clients are never inside a transfer
+   at the same time, and whoever is inside holds the lock with a live heart beat. *)
+Theorem mutable_transfers_exclusive : forall (P : params) (ops : list opk) (sched : list label),
+  p_kind P = Mutable -> p_defer_first P = false -> ~ In BreakLock sched ->
+  let st := run P (init_state P ops) sched in
+  forall n m Ln Lm, nth_error (s_cl st) n = Some Ln -> nth_error (s_cl st) m = Some Lm ->
+    in_critical Ln = true -> in_critical Lm = true -> n = m /\ r_lock (s_rem st) = LHeld n true.
+Proof. exact mutable_transfers_exclusive_l. Qed.
+Print Assumptions mutable_transfers_exclusive.
+
+(* FULL statement wanted (store_success_visible): for both cache kinds, a Store that reports success — whatever backend
+   operations failed while it ran — leaves the entry such that every later Fetch that reports success returns its version,
+   and a fault-free Fetch does report success, until the next Store.
+   PROVED here: the Store half for the mutable cache — for every entry state, every client and EVERY sequence of faults
+   (one arbitrary fault or none at each micro-step: error, short write), a Store of v that reports success leaves exactly
+   the complete package of v as cache.zip.  MISSING: the Fetch half in general (a fault-free Fetch of an entry whose
+   cache.zip is complete succeeds whatever the side file says — shown on the D21 witness by
+   c16_fixed_code_recovers_from_stale_hash and exercised by the harness at every backend operation), and the immutable
+   cache (needs the modification-time order of the package files). *)
+Theorem store_success_visible_partial : forall (P : params) (v : ver) (u c : nat) (fs : list fault) (R : remote),
+  p_kind P = Mutable ->
+  let '(R', L') := run_faults P c fs R (new_client P (OStore v u)) in
+  c_pc L' = Done Ok -> content Cache R' = Some (full P v).
+Proof. exact store_success_leaves_complete_package_l. Qed.
+Print Assumptions store_success_visible_partial.
 
 (* The hypothesis cannot be dropped: if a proper prefix of a package unzips, a crash of the first Store right after that
    prefix lets a later Fetch report success with a tree that was never stored. *)
